@@ -62,9 +62,10 @@ def half (n : Nat) : Nat := (n + 1) / 2
 
 /-! ## Affine map and mirrored assignment -/
 
-/-- functional update of the table `roots_and_weights` (index ↦ (node, weight)) -/
-def upd (s : Nat → Rat × Rat) (i : Nat) (v : Rat × Rat) : Nat → Rat × Rat :=
-  fun k => if k = i then v else s k
+/-- assignment `table[i] = g(table)` on the table `roots_and_weights` (index ↦ (node, weight)),
+    as a function of the index; the new value is evaluated only when entry `i` is read -/
+def upd (s : Nat → Rat × Rat) (i : Nat) (g : (Nat → Rat × Rat) → Rat × Rat) : Nat → Rat × Rat :=
+  fun k => if k = i then g s else s k
 
 def xMiddle (xmin xmax : Rat) : Rat := (1 / 2 : Rat) * (xmax + xmin)
 def xHalfWidth (xmin xmax : Rat) : Rat := (1 / 2 : Rat) * (xmax - xmin)
@@ -76,12 +77,14 @@ def weightOf (h z pp : Rat) : Rat := 2 * h / ((1 - z * z) * pp * pp)
 def assignStep (n : Nat) (xmin xmax : Rat) (z pp : Nat → Rat) (s : Nat → Rat × Rat) (i : Nat) : Nat → Rat × Rat :=
   let mid := xMiddle xmin xmax
   let h := xHalfWidth xmin xmax
-  let w := weightOf h (z i) (pp i)
-  -- [i][0], [n-i-1][0], [i][1], [n-i-1][1] = [i][1]
-  let s1 := upd s i (mid - h * z i, (s i).2)
-  let s2 := upd s1 (n - i - 1) (mid + h * z i, (s1 (n - i - 1)).2)
-  let s3 := upd s2 i ((s2 i).1, w)
-  upd s3 (n - i - 1) ((s3 (n - i - 1)).1, (s3 i).2)
+  -- [i][0] = mid - h z
+  let s1 := upd s i (fun s => (mid - h * z i, (s i).2))
+  -- [n-i-1][0] = mid + h z
+  let s2 := upd s1 (n - i - 1) (fun s => (mid + h * z i, (s (n - i - 1)).2))
+  -- [i][1] = 2 h / ((1 - z²) pp²)
+  let s3 := upd s2 i (fun s => ((s i).1, weightOf h (z i) (pp i)))
+  -- [n-i-1][1] = [i][1]
+  upd s3 (n - i - 1) (fun s => ((s (n - i - 1)).1, (s i).2))
 
 /-- the table after the first `t` passes of the outer loop (all entries start as `(0,0)`) -/
 def assignLoop (n : Nat) (xmin xmax : Rat) (z pp : Nat → Rat) : Nat → (Nat → Rat × Rat)
